@@ -327,3 +327,26 @@ def valid_method(params):
         if p[1] in ('pos', 'varargs'):
             return p[2] not in LAZY
     return False
+
+
+def registered(history):
+    """What a history of registration attempts leaves visible.
+
+    history    layers nearest first; each layer is the sequence of attempts
+               (overload, exclusive) made on that context, in the order made.
+    An attempt to register a method / extension method that cannot be called as
+    a method (valid_method) is rejected and changes NOTHING: the overload is not
+    visible and the layer is not marked exclusive by it ("the overloads visible
+    for a name" are the ones whose registration succeeded).  A layer is
+    exclusive when an accepted registration asked for it.
+    -> (layers as resolve() takes them, ((layer index, attempt index), ...) of the rejected attempts)"""
+    layers, rejected = [], []
+    for li, attempts in enumerate(history):
+        accepted = []
+        for ai, (o, exclusive) in enumerate(attempts):
+            if o[2] != 'function' and not valid_method(o[1]):
+                rejected.append((li, ai))
+            else:
+                accepted.append((o, exclusive))
+        layers.append((any(e for o, e in accepted), tuple(o for o, e in accepted)))
+    return tuple(layers), tuple(rejected)
